@@ -48,9 +48,51 @@ def plan(tier, seed):
         for st in starts:
             blocks.append([r["reaction"] for r in g[st:st + size]])
     rng.shuffle(blocks)
-    for blk in blocks[: (6 if q else len(blocks))]:
+    for blk in blocks[: (3 if q else len(blocks))]:
         shards.append({"history": blk})
+    # reagent-cluster blocks: reactions that consume the same reactant molecule (same leaving fragment, different
+    # substrates and completion paths) are processed next to each other, so that anything keyed by a molecule and
+    # carried from one reaction to the next (memo tables, shared parsed molecules) is hit by a *different* reaction
+    clusters = reagent_clusters(rows)
+    keys = sorted(clusters)
+    rng.shuffle(keys)
+    if q:
+        br = [k for k in keys if "[" in k][:14]
+        keys = br + [k for k in keys if k not in br][:13]
+    picked = []
+    for k in keys:
+        ids = clusters[k]
+        cap = 4 if q else 8
+        picked.append([rows_by_id[i] for i in (rng.sample(ids, cap) if len(ids) > cap else ids)])
+    rng.shuffle(picked)
+    blk = []
+    for grp in picked:
+        blk.extend(grp)
+        if len(blk) >= size:
+            shards.append({"history": blk, "kind": "reagent_cluster"})
+            blk = []
+    if blk:
+        shards.append({"history": blk, "kind": "reagent_cluster"})
     return shards
+
+
+rows_by_id = {}
+
+
+def reagent_clusters(rows):
+    """canonical consumed reactant molecule -> ids of the corpus reactions that consume it (2..n reactions)"""
+    idx = {}
+    for r in rows:
+        rows_by_id[r["id"]] = r["reaction"]
+        try:
+            left, right = r["reaction"].split(">>")
+            fl, fp = oracle.frags(left), oracle.frags(right)
+        except Exception:
+            continue
+        for m in set(fl):
+            if m not in fp:
+                idx.setdefault(m, []).append(r["id"])
+    return {m: v for m, v in idx.items() if len(v) >= 2}
 
 
 def view(r):
@@ -121,6 +163,7 @@ def history(block, res):
 def work(shard, res, tier, seed):
     if "history" in shard:
         history(shard["history"], res)
+        res.count("history_blocks:%s" % shard.get("kind", "dataset_order"))
         return
     if "replay" in shard and "block" in shard["replay"]:
         history(shard["replay"]["block"], res)
